@@ -111,6 +111,22 @@ fn per_state<K: KeyT, V: ValT, const N: usize>(gsys: &MapSys<K, V, N>, full: &Ma
     }
     // 2. independence: every operation on one copy leaves the other untouched
     for (oi, op) in full.ops.iter().enumerate() {
+        // differential baseline: the same operation on a never-cloned container in the same state.
+        // Whatever that run shows is the operation's own business (C01, C11, ...), not the clone's.
+        let baseline = {
+            let mut q = Ctx::new(0);
+            q.quiet = true;
+            let mut fb = gsys.build(path, &mut q);
+            if !applicable(&fb.model, op) {
+                continue;
+            }
+            let mut sub = Ctx::new(!0);
+            let mut leaked = Vec::new();
+            full.step(&mut fb.bx, &mut fb.model, &fb.probes, op, &mut sub, &mut leaked);
+            let r = (sub.total_violations(), mc::mapsys::snapshot(&fb.bx.c));
+            drop(fb);
+            r
+        };
         for on_clone in [true, false] {
             let mut q = Ctx::new(0);
             q.quiet = true;
@@ -143,10 +159,20 @@ fn per_state<K: KeyT, V: ValT, const N: usize>(gsys: &MapSys<K, V, N>, full: &Ma
                 cx.check(PM, now == clone_entries, || format!("{op} on the original changed the clone: {clone_entries:?} -> {now:?}"));
                 invariants(&c.c, cx, PM);
             }
-            // anything the step itself found on the stepped copy is a symptom of shared state
-            if sub.total_violations() > 0 {
+            // the stepped copy must behave exactly like a never-cloned container in the same state
+            let stepped = (sub.total_violations(), if on_clone { mc::mapsys::snapshot(&c.c) } else { mc::mapsys::snapshot(&b.bx.c) });
+            if stepped != baseline {
                 let m = sub.best.iter().flatten().next().map(|v| v.msg.clone()).unwrap_or_default();
-                cx.violate(PM, format!("the stepped copy misbehaves after clone(): {m}"));
+                cx.violate(
+                    PM,
+                    format!(
+                        "the stepped copy behaves differently from a never-cloned container in the same state: {} vs {} judged deviations, state {} vs {}; first: {m}",
+                        stepped.0,
+                        baseline.0,
+                        stepped.1.render(),
+                        baseline.1.render()
+                    ),
+                );
             } else {
                 cx.check(PM, true, String::new);
             }
@@ -208,6 +234,135 @@ fn per_state_set<const N: usize>(keys: &[(u8, u8)], cx: &mut Ctx) {
     cx.check(PM | C02, pl::live_count() == 0, || "objects still alive after both sets were dropped".to_string());
 }
 
+/// `dst.clone_from(&src)` for an ordered pair of states: afterwards dst holds exactly one fresh
+/// clone of every entry of src (and nothing else), src is untouched, everything dst held before
+/// has been destroyed exactly once, and the two stay independent.
+fn clone_from_pair<K: KeyT, V: ValT, const N: usize>(gsys: &MapSys<K, V, N>, dpath: &[u32], spath: &[u32], cx: &mut Ctx) {
+    let ledger = K::LEDGER && V::LEDGER;
+    let mut d = gsys.build(dpath, cx);
+    let s = gsys.build_more(spath, cx);
+    cx.here.op = "dst.clone_from(&src)".into();
+    cx.evaluations += 1;
+    let d_before = entries_of(&d.bx.c);
+    let s_before = entries_of(&s.bx.c);
+    if !d_before.is_empty() || !s_before.is_empty() {
+        cx.nontrivial += 1;
+    }
+    cx.class(match d_before.len().cmp(&s_before.len()) {
+        std::cmp::Ordering::Less => "clone_from: dst shorter",
+        std::cmp::Ordering::Equal => "clone_from: same length",
+        std::cmp::Ordering::Greater => "clone_from: dst longer",
+    });
+    let c0 = pl::counts();
+    let first_new = pl::next_id();
+    d.bx.c.clone_from(&s.bx.c);
+    let c1 = pl::counts();
+    let got = entries_of(&d.bx.c);
+    let s_after = entries_of(&s.bx.c);
+    cx.check(PM, s_after == s_before, || format!("clone_from changed the source: {s_before:?} -> {s_after:?}"));
+    let strip = |e: &[(KD, VD)]| {
+        let mut x: Vec<(u8, u8, u8)> = e.iter().map(|(k, v)| (k.k, k.tag, v.v)).collect();
+        x.sort();
+        x
+    };
+    cx.check(PM, strip(&got) == strip(&s_before), || format!("after clone_from dst holds {got:?} but src holds {s_before:?} (dst held {d_before:?})"));
+    cx.check(PM, d.bx.c.len() == s.bx.c.len(), || format!("after clone_from dst.len() is {} but src.len() is {}", d.bx.c.len(), s.bx.c.len()));
+    cx.check(PM, d.bx.c == s.bx.c && s.bx.c == d.bx.c, || "after clone_from dst != src".to_string());
+    let clones = (c1[pl::Cb::Clone as usize] - c0[pl::Cb::Clone as usize]) as usize;
+    cx.check(PM, clones == 2 * s_before.len(), || format!("clone_from of {} entries made {clones} element clones, expected {}", s_before.len(), 2 * s_before.len()));
+    for (k, v) in &s_before {
+        let (ko, vo) = (pl::obj(k.id).unwrap(), pl::obj(v.id).unwrap());
+        cx.check(PM, ko.clones == 1 && vo.clones == 1, || format!("source key {k} was cloned {} times and its value {v} {} times", ko.clones, vo.clones));
+    }
+    for (k, v) in &got {
+        let ko = pl::obj(k.id).map(|o| o.clone_of);
+        let vo = pl::obj(v.id).map(|o| o.clone_of);
+        let src = s_before.iter().find(|(bk, _)| Some(bk.id) == ko);
+        let good = k.id >= first_new && v.id >= first_new && src.is_some_and(|(_, bv)| Some(bv.id) == vo);
+        cx.check(PM, good, || format!("after clone_from dst entry {k}={v} is not a fresh clone of one source entry"));
+    }
+    if ledger {
+        let drops = (c1[pl::Cb::Drop as usize] - c0[pl::Cb::Drop as usize]) as usize;
+        cx.check(PM | C02, drops == 2 * d_before.len(), || format!("clone_from destroyed {drops} objects but dst held {} entries", d_before.len()));
+        for (k, v) in &d_before {
+            cx.check(PM | C02, !pl::is_live(k.id) && !pl::is_live(v.id), || format!("dst's previous entry {k}={v} is still alive after clone_from"));
+        }
+    }
+    invariants(&d.bx.c, cx, PM);
+    cx.check(PM | C02, d.bx.intact() && s.bx.intact(), || "a canary next to a container was overwritten".to_string());
+    flush_ledger(cx, PM | C02, "clone_from");
+    // independence: empty dst, src untouched; then drop src, dst's objects stay alive
+    d.bx.c.clear();
+    cx.check(PM, entries_of(&s.bx.c) == s_before, || "clearing dst after clone_from changed src".to_string());
+    d.bx.c.clone_from(&s.bx.c);
+    let kept = entries_of(&d.bx.c);
+    let mc::mapsys::Built { bx: sbx, probes: sprobes, .. } = s;
+    drop(sbx);
+    if ledger {
+        for id in ids(&kept) {
+            cx.check(PM, pl::is_live(id), || format!("dropping src destroyed object #{id} of dst"));
+        }
+    }
+    let mc::mapsys::Built { bx: dbx, probes: dprobes, .. } = d;
+    drop(dbx);
+    drop(sprobes);
+    drop(dprobes);
+    flush_ledger(cx, PM | C02, "dropping both containers after clone_from");
+    if ledger {
+        cx.check(PM | C02, pl::live_count() == 0, || format!("{} objects still alive after both containers were dropped", pl::live_count()));
+    }
+}
+
+fn clone_from_set_pair<const N: usize>(dkeys: &[(u8, u8)], skeys: &[(u8, u8)], cx: &mut Ctx) {
+    pl::reset();
+    cx.here.op = "Set: dst.clone_from(&src)".into();
+    cx.evaluations += 1;
+    let mut d = Canary::boxed(Set::<Kx, N>::new());
+    for (k, t) in dkeys {
+        d.c.insert(Kx::new(*k, *t));
+    }
+    let mut s = Canary::boxed(Set::<Kx, N>::new());
+    for (k, t) in skeys {
+        s.c.insert(Kx::new(*k, *t));
+    }
+    let d_before: Vec<KD> = d.c.iter().map(|k| k.desc()).collect();
+    let s_before: Vec<KD> = s.c.iter().map(|k| k.desc()).collect();
+    let c0 = pl::counts();
+    let first_new = pl::next_id();
+    d.c.clone_from(&s.c);
+    let c1 = pl::counts();
+    let got: Vec<KD> = d.c.iter().map(|k| k.desc()).collect();
+    let s_after: Vec<KD> = s.c.iter().map(|k| k.desc()).collect();
+    cx.check(PM, s_after == s_before, || "Set::clone_from changed the source".to_string());
+    let strip = |e: &[KD]| {
+        let mut x: Vec<(u8, u8)> = e.iter().map(|k| (k.k, k.tag)).collect();
+        x.sort();
+        x
+    };
+    cx.check(PM, strip(&got) == strip(&s_before) && d.c.len() == s.c.len(), || format!("after Set::clone_from dst holds {got:?} but src holds {s_before:?} (dst held {d_before:?})"));
+    cx.check(PM, d.c == s.c && s.c == d.c, || "after Set::clone_from dst != src".to_string());
+    let clones = (c1[pl::Cb::Clone as usize] - c0[pl::Cb::Clone as usize]) as usize;
+    cx.check(PM, clones == s_before.len(), || format!("Set::clone_from of {} elements made {clones} clones", s_before.len()));
+    for k in &got {
+        let src = pl::obj(k.id).map(|o| o.clone_of);
+        cx.check(PM, k.id >= first_new && s_before.iter().any(|x| Some(x.id) == src), || format!("after Set::clone_from element {k} is not a fresh clone of a source element"));
+    }
+    for k in &d_before {
+        cx.check(PM | C02, !pl::is_live(k.id), || format!("dst's previous element {k} is still alive after Set::clone_from"));
+    }
+    s.c.clear();
+    let now: Vec<KD> = d.c.iter().map(|k| k.desc()).collect();
+    cx.check(PM, now == got, || "clearing src after Set::clone_from changed dst".to_string());
+    drop(s);
+    drop(d);
+    flush_ledger(cx, PM | C02, "Set::clone_from");
+    cx.check(PM | C02, pl::live_count() == 0, || "objects still alive after both sets were dropped".to_string());
+}
+
+fn args_cap() -> usize {
+    Args::from_env().usize("pair-cap", 4_000_000)
+}
+
 fn run_n<K: KeyT, V: ValT, const N: usize>(rep: &mut EngineReport, nk: u8, nv: u8, threads: usize, with_sets: bool, replay: Option<Vec<u32>>) -> i32 {
     let gsys = MapSys::<K, V, N>::new(nk, nv, Alpha::Gen);
     let full = MapSys::<K, V, N>::new(nk, nv, Alpha::Full);
@@ -242,7 +397,41 @@ fn run_n<K: KeyT, V: ValT, const N: usize>(rep: &mut EngineReport, nk: u8, nv: u
         }
         lcx.sample(|| J::obj().set("state", out.states[s].snap.render()).set("observed", "clone(), then every op on either copy"));
     });
-    rep.configs.push(J::obj().set("config", config).set("states", out.states.len()).set("ops", full.ops.len()).set("wall_s", t0.elapsed().as_secs_f64()));
+    // clone_from: ordered pairs (dst, src) of states. All pairs when that stays below the cap; otherwise
+    // every state as src against an evenly spaced subset of dst states that still contains every length.
+    let n = out.states.len();
+    let cap = args_cap();
+    let stride = (n * n).div_ceil(cap).max(1);
+    let dsts: Vec<usize> = (0..n).filter(|i| i % stride == 0).collect();
+    let npairs = dsts.len() * n;
+    par_states(npairs, threads, &mut cx, |i, lcx| {
+        let (d, s) = (dsts[i / n], i % n);
+        let (dpath, spath) = (out.path_of(d), out.path_of(s));
+        lcx.here.path_idx = dpath.clone();
+        lcx.here.path = dpath.iter().map(|i| gsys.ops[*i as usize].to_string()).collect();
+        lcx.here.extra = format!("src built by {:?}", spath.iter().map(|i| gsys.ops[*i as usize].to_string()).collect::<Vec<_>>());
+        clone_from_pair::<K, V, N>(&gsys, &dpath, &spath, lcx);
+        if with_sets {
+            let (de, se) = (out.states[d].snap.entries(), out.states[s].snap.entries());
+            if de.iter().chain(se.iter()).all(|e| e.2 == 0) {
+                let dk: Vec<(u8, u8)> = de.iter().map(|e| (e.0, e.1)).collect();
+                let sk: Vec<(u8, u8)> = se.iter().map(|e| (e.0, e.1)).collect();
+                clone_from_set_pair::<N>(&dk, &sk, lcx);
+            }
+        }
+    });
+    rep.configs.push(
+        J::obj()
+            .set("config", config)
+            .set("states", out.states.len())
+            .set("ops", full.ops.len())
+            .set("clone_from_pairs", npairs)
+            .set("clone_from_dst_stride", stride)
+            .set("wall_s", t0.elapsed().as_secs_f64()),
+    );
+    if stride > 1 {
+        rep.caps_hit.push(format!("{}: clone_from ran on {npairs} of {} ordered state pairs (every state as source, every {stride}-th state as destination)", cx.here.config, n * n));
+    }
     rep.states += out.states.len() as u64;
     rep.transitions += cx.evaluations;
     rep.cx.merge(cx);
